@@ -24,7 +24,7 @@ def run_one(m):
                 subprocess.run(["patch", "-p1", "-s", "-d", d], stdin=pf, check=True)
         if m.get("sed"):
             subprocess.run(["sed", "-i", m["sed"], f], check=True)
-        if open(f).read() == before:
+        if not m.get("patch") and open(f).read() == before:
             return m, "NOT-APPLIED", ""
         env = dict(os.environ, VERIF_REPO=d, VERIF_EVIDENCE_DIR=os.path.join(d, "evidence"), VERIF_REPLAY_DIR=os.path.join(d, "replays"))
         r = subprocess.run([os.path.join(ROOT, "check"), m["property"], "--tier", "quick"], capture_output=True, text=True, env=env, timeout=1800)
